@@ -57,8 +57,8 @@ def extra(ctx):
 PROP = {
     "id": "C08",
     "coq_targets": ["Properties/C08.vo", "Extract/AroExtract.vo", "Properties/Pipeline.vo", "Extract/PipelineExtract.vo",
-                    "Extract/SpeakerExtract.vo"],
-    "more_properties_files": ["Properties/Pipeline.v"],
+                    "Properties/Speaker.vo", "Extract/SpeakerExtract.vo"],
+    "more_properties_files": ["Properties/Pipeline.v", "Properties/Speaker.v"],
     "extra": extra,
     "properties_file": "Properties/C08.v",
     "theorems": ["C08_ribout_is_export_view_partial", "C08_guard_transparent_ibgp", "C08_guard_transparent_rs_client",
@@ -69,7 +69,10 @@ PROP = {
                  "Pipeline_locrib_is_union_of_contributions", "Pipeline_ribout_is_export_of_selection",
                  "Pipeline_peer_view_is_announced", "Pipeline_peer_view_converges",
                  "Pipeline_session_down_removes_contribution", "Pipeline_noninterference",
-                 "Pipeline_selection_order_independent", "Pipeline_peer_view_converges_refuted_duplicate"],
+                 "Pipeline_selection_order_independent", "Pipeline_peer_view_converges_refuted_duplicate",
+                 # wire-to-wire theorems about the composed speaker (Properties/Speaker.v, notes/Pipeline.md "Speaker")
+                 "Speaker_installs_what_was_decoded", "Speaker_output_decodes_to_export_view", "Speaker_wire_to_wire",
+                 "Speaker_run_is_pipeline_run"],
     "allowed_axioms": [],
     "harness": "c08",
     "modelrun": {"name": "c08", "extracted": ["aro_model"], "driver": aro_props.driver("c08")},
